@@ -93,6 +93,11 @@ pub fn universe() -> Vec<RuleSpec> {
     r.ips = Some(vec![(true, "10.0.0.1".into()), (true, "10.0.0.1/32".into())]);
     r.methods = Some(vec!["GET".into(), "GET".into()]);
     v.push(r);
+    // r15: a header pattern with an upper-case literal (header patterns are matched as written, whatever ignore_header_case)
+    let mut r = mk("r15", "r15 headers{X match_regex V@m}");
+    r.headers = vec![hc("match_regex", "X", Some("V@m"))];
+    r.markers.push(("m".into(), "[0-9]+".into()));
+    v.push(r);
     // r13: the empty host is legal and means "any host"
     let mut r = mk("r13", "r13 host \"\" (any host) static /a");
     r.host = Some(String::new());
